@@ -400,6 +400,10 @@ fn c11(r: &Run, rec: &StepRec) {
     use crate::spec;
     let d = r.w.d;
     let what = &rec.what;
+    // only a funding settlement moves the cumulative premium fraction
+    if !matches!(rec.op, Op::PayFunding { .. }) || !rec.tx.ok {
+        prove_d("C11/cumulative-fraction-moves-only-at-settlement", si(&rec.post.cum[r.vi]).eq(si(&rec.pre.cum[r.vi])), what.clone());
+    }
     if !rec.tx.ok {
         return;
     }
